@@ -209,7 +209,13 @@ def eval_subtree(tree):
         # Subtree represents a *factor* in an expression.
         if len(tree) > 2:
             if tree[2] == '^':
-                return eval_subtree(tree[1])**eval_subtree(tree[3])
+                base = eval_subtree(tree[1])
+                power = eval_subtree(tree[3])
+                # A negative magnitude has no real fractional power.
+                if getattr(base, 'value', base) < 0 and power != int(power):
+                    raise UnitsParseError(
+                        "Negative quantity raised to a fractional power.\n")
+                return base**power
         else:
             return eval_subtree(tree[1])
 
